@@ -74,7 +74,7 @@ def config_space(L):
                 yield cfg
 
 
-def check_csv(csv_text, blob, tree_json, config, cfg):
+def check_csv(csv_text, blob, tree_json, config, cfg, query_ids=None):
     msgs = []
     lines = csv_text.split('\n')
     comments = []
@@ -97,6 +97,11 @@ def check_csv(csv_text, blob, tree_json, config, cfg):
         msgs.append(f'no comment line with the software version: {comments}')
     rows = list(csv.DictReader(io.StringIO(body)))
     results = blob['results']
+    if query_ids is not None and [r.get('cell_id') for r in rows] != list(
+            query_ids):
+        msgs.append('CSV rows are not in the query file\'s cell order: '
+                    f"{[r.get('cell_id') for r in rows][:12]}... expected "
+                    f'{list(query_ids)[:12]}...')
     if [r.get('cell_id') for r in rows] != [r['cell_id'] for r in results]:
         msgs.append(f"CSV cell ids {[r.get('cell_id') for r in rows]} != "
                     f"JSON order")
@@ -233,7 +238,8 @@ def evaluate(case, scratch):
         msgs = []
         try:
             csv_text = open(config['csv_result_path']).read()
-            msgs += check_csv(csv_text, o.blob, tree, config, o.cfg)
+            msgs += check_csv(csv_text, o.blob, tree, config, o.cfg,
+                              query_ids=b.cell_ids)
         except Exception as e:
             msgs.append(f'CSV unreadable: {type(e).__name__}: {e}')
         try:
@@ -259,6 +265,30 @@ def evaluate(case, scratch):
             sample = {'run': desc,
                       'csv_head': csv_text.split('\n')[:5] if msgs == []
                       else None}
+    if len(b.model['leaves']) == 3 and case['scheme'] == 'C' \
+            and not case['tricky']:
+        # many chunks whose buffer-file names sort differently from the rows
+        spec100 = dict(spec, n_cells=100)
+        b100 = scenario.build(spec100, scratch.new_dir('in100') / 'in')
+        for cfg in ({'chunk_size': 5, 'n_processors': 2},
+                    {'chunk_size': 1000, 'n_processors': 16}):
+            o = scenario.run_mapping(b100, cfg, scratch.new_dir('r'))
+            n += 1
+            desc = f'{shape_s} 100 cells {cfg}'
+            if not (o.ok and o.blob and 'results' in o.blob):
+                violations.append({'key': 'run-failed',
+                                   'msg': f'{desc}: {o.error}'})
+                continue
+            csv_text = open(o.config['csv_result_path']).read()
+            with h5py.File(b100.stats_path, 'r') as f:
+                tree100 = json.loads(f['taxonomy_tree'][()].decode())
+            msgs = check_csv(csv_text, o.blob, tree100, o.config, o.cfg,
+                             query_ids=b100.cell_ids)
+            msgs += check_hdf5(o.config['hdf5_result_path'], o.blob)
+            for m in msgs[:3]:
+                violations.append({'key': 'outputs-disagree',
+                                   'msg': f'{desc}: {m}'})
+            keys.append(desc)
     n2, v2 = function_level(case, scratch, b, tree)
     violations += v2
     return {'violations': violations[:40], 'keys': keys,
